@@ -70,6 +70,12 @@ def txEndFaithful (c : Case) (p : Pred) (o : Obs) : Bool :=
   let ends (l : List String) := l.filter fun e => e == "commit" || e == "rollback"
   ends (p.log.map Ev.render) == ends o.events
 
+/-- C15, "Get stores the first row": Get fetches no further than the reference machine does
+    (what lies behind the first row - more rows, a failure - is none of its business) -/
+def getReadsFirstOnly (c : Case) (p : Pred) (o : Obs) : Bool :=
+  if c.op != "get" then true else
+  (o.events.filter (· == "next")).length ≤ ((p.log.map Ev.render).filter (· == "next")).length
+
 def handleL4 (j : Json) : Except String Json := do
   let c := parseL4Case (← j.getObjVal? "case")
   let o := parseL4Obs (← j.getObjVal? "obs")
@@ -85,7 +91,7 @@ def handleL4 (j : Json) : Except String Json := do
      ("c12", Json.bool (holdsC12 c o && txEndFaithful c p o)),
      -- (the result set is closed when the call returns, inside a transaction too)
      ("c13", Json.bool (holdsC13 c o && gn (← j.getObjVal? "obs") "openRowsAtReturn" == 0)),
-     ("c14", Json.bool (holdsC14 c o && cancelReported c p o)), ("c15", Json.bool (holdsC15 c o)),
+     ("c14", Json.bool (holdsC14 c o && cancelReported c p o)), ("c15", Json.bool (holdsC15 c o && getReadsFirstOnly c p o)),
      ("c20", Json.bool (holdsC20 c o))])
 
 open Sqlair.Cache in
